@@ -40,9 +40,10 @@ pub struct FnPlan {
     pub padding: bool,
     /// also keep a second saved register busy (s1/s11)
     pub extra_saved: Option<Reg>,
-    /// keep a frame pointer in s10 (`mv s10, sp` after the prologue, `mv sp, s10` before
-    /// the epilogue)
-    pub frame_pointer: bool,
+    /// keep a frame pointer in s10: 1 = `mv s10, sp` after the prologue and `mv sp, s10`
+    /// before the epilogue; 2 = the classic fp, equal to the entry sp (`addi s10, sp, FRAME`
+    /// ... `addi sp, s10, -FRAME`)
+    pub frame_pointer: u8,
 }
 
 #[derive(Clone, Debug)]
@@ -99,8 +100,8 @@ pub fn emit_function(fi: usize, plans: &[FnPlan]) -> Vec<Stmt> {
         }
     }
     const S10: Reg = 26;
-    let fp = p.frame_pointer && !p.recursive;
-    if fp {
+    let fp = if p.recursive { 0 } else { p.frame_pointer };
+    if fp > 0 {
         slots.push(S10);
     }
     if p.frame_variant == 1 {
@@ -114,15 +115,19 @@ pub fn emit_function(fi: usize, plans: &[FnPlan]) -> Vec<Stmt> {
             for (k, r) in slots.iter().enumerate() {
                 s.push(sw(*r, off(k), SP));
             }
-            if fp {
+            if fp == 1 {
                 s.push(mv(S10, SP));
+            } else if fp == 2 {
+                s.push(addi(S10, SP, frame));
             }
         }
     };
     let epilogue = |s: &mut Vec<Stmt>| {
         if frame > 0 {
-            if fp {
+            if fp == 1 {
                 s.push(mv(SP, S10));
+            } else if fp == 2 {
+                s.push(addi(SP, S10, -frame));
             }
             for (k, r) in slots.iter().enumerate() {
                 s.push(lw(*r, off(k), SP));
@@ -312,7 +317,7 @@ impl Opts {
         let frame_variant = take(self.frame_variants);
         let padding = take(self.paddings) == 1;
         let extra_saved = self.extras[take(self.extras.len())];
-        let frame_pointer = take(self.frame_pointers) == 1;
+        let frame_pointer = take(self.frame_pointers) as u8;
         FnPlan {
             name,
             arity,
@@ -390,7 +395,7 @@ impl SSpace {
             frame_variants: 2,
             paddings: 2,
             extras: vec![None, Some(S11)],
-            frame_pointers: 2,
+            frame_pointers: 3,
         };
         let parts = match tier {
             Tier::Quick => vec![(1, full.clone()), (2, small), (3, tiny)],
@@ -404,7 +409,7 @@ impl SSpace {
                         frame_variants: 2,
                         paddings: 1,
                         extras: vec![None],
-                        frame_pointers: 2,
+                        frame_pointers: 3,
                     },
                 ),
                 (3, Opts { skels: SKELS[..3].to_vec(), arities: vec![0, 1], frame_variants: 1, paddings: 1, extras: vec![None], frame_pointers: 1 }),
@@ -512,7 +517,7 @@ pub fn confirm(sp: &SProgram, cfg: &Cfg) -> Result<Confirmation, String> {
             let mut m = crate::c01::initial_machine(state);
             let mut env = Env::new(vec![answer as u32]);
             let lim = Limits {
-                horizon: 600,
+                horizon: 4000,
                 require_callee_convention: true,
             };
             // per activation: defined registers, last writer of each register
